@@ -27,7 +27,7 @@ P = {
          "Random effectful programs (assignments in operand positions, recording and failing functions, unknown names, k/0 with distinct k, eager if, no short-circuit) over varied contexts; result (exact names, messages and failing operands), final variables and call log with arguments must equal the reference.",
          "User functions deterministic; their only effect is the harness-owned log."),
  "C09": ("4 C09", "complete configuration matrix enumeration; oracle: reference resolution rule with recording functions",
-         "54 names x 98 context configurations (switch, user function recording or itself failing with FunctionIdentifierNotFound, variable, clone / clone_from / clear_functions / clear / toggled twice, both empty contexts) x 32 call and variable forms = 169,344 evaluations, all enumerated; callee, argument shape and error must match.",
+         "54 names x 130 context configurations (switch, user function recording or itself failing with FunctionIdentifierNotFound, variable, clone / clone_from / clear_functions / clear / toggled twice / clearing while another copy is alive, both empty contexts) x 56 call and variable forms = 393,120 evaluations, all enumerated; callee, argument shape and error must match.",
          "Builtin results are those of the C10 reference."),
  "C10": ("4 C10", "complete builtin x argument-shape matrix + per-family proptest; oracle: per-builtin reference functions (bit-exact / error / validity predicate for min,max) and len/substring laws",
          "49 builtins x 23,500 argument shapes (arity 0..3) in both build profiles, random arguments near function-specific boundaries, and (string, a, b) triples for the len/substring consistency laws.",
